@@ -252,6 +252,11 @@ func runC02(c *core.Case) {
 		if spec.NewPageN == 0 {
 			spec.NewPageN = 1
 		}
+		if mode == "persist" && spec.Outcome == "commit" && (c.Index/3)%4 == 1 {
+			// PRAGMA journal_size_limit: the finalised journal is cut down to the limit
+			spec.JournalSizeLimit = int64([]uint32{sector, 4096, 1}[i%3])
+			c.Count("persist_commits_with_journal_size_limit", 1)
+		}
 
 		prev := mon.PosOf(n, "db")
 		oldImg := d.M
